@@ -34,6 +34,7 @@
 //!            get_instruction_pointer (the model computes them from the byte layout the translator derives from format.rs)
 //!   sa / ia  1 iff get_stack_pointer / get_instruction_pointer equals get_register_always(<sp / ip register name>)
 //!            widened to u64, both before and after the set
+//!   mf  1 iff MinidumpContext::format_register(name) = CpuContext::format_register(name) (same string, or both panic)
 //!   ev  1 iff every (name, value) pair MinidumpContext::registers() and CpuContext::registers() yield after the set
 //!       carries the value get_register_always(name) returns
 //!   | RG=<T::REGISTERS> | spm=<memoize(sp name)> | ipm=<memoize(ip name)> | sm=<memoize of each validity member>
@@ -152,7 +153,7 @@ where
     let ia = ia_before && Some(ip) == named(&ctx, ctx.instruction_pointer_register_name());
 
     let common = format!(
-        "mz={};st={};ga={};gA={};gr={};iv={};ch={};sp={};ip={};spn={};ipn={};rn={};vn={};cr={};cv={};sz={};fm={};mg={};mga={};g0={};sp0={};ip0={};sa={};ia={};ev={}",
+        "mz={};st={};ga={};gA={};gr={};iv={};ch={};sp={};ip={};spn={};ipn={};rn={};vn={};cr={};cv={};sz={};fm={};mg={};mga={};g0={};sp0={};ip0={};sa={};ia={};ev={};mf={}",
         mz.unwrap_or("N"),
         st as u8,
         show(ga, before_named),
@@ -178,19 +179,19 @@ where
         sa as u8,
         ia as u8,
         enum_values_ok as u8,
+        mdfm_same as u8,
     );
     let sm: Vec<String> = members
         .iter()
         .map(|m| ctx.memoize_register(m).unwrap_or("N").to_string())
         .collect();
     format!(
-        "{}|RG={}|spm={}|ipm={}|sm={}|mf={}|ma={}",
+        "{}|RG={}|spm={}|ipm={}|sm={}|ma={}",
         common,
         T::REGISTERS.join(","),
         ctx.memoize_register(ctx.stack_pointer_register_name()).unwrap_or("N"),
         ctx.memoize_register(ctx.instruction_pointer_register_name()).unwrap_or("N"),
         sm.join(","),
-        mdfm_same as u8,
         md_ga_same as u8,
     )
 }
